@@ -27,7 +27,7 @@ for c in CHECKS:
     serves.setdefault("smt", []).append(c["id"]) if c["engine"] in ("pyvc", "symnp", "extreal") else None
 for pid in ("C01", "C02", "C07", "C13", "C20"):
     serves.setdefault("lean", []).append(pid)
-for pid in ("C04", "C20"):
+for pid in ("C04", "C17", "C20"):
     serves.setdefault("looprule", []).append(pid)
 ENGINES = [{"name": k, "path": ENGINE_TEXT[k][0], "serves_properties": sorted(set(v)), "kind_free_text": ENGINE_TEXT[k][1]}
            for k, v in serves.items()]
